@@ -1,6 +1,6 @@
 use std::io::{self, Write};
 
-use super::{write_description_field, write_other_fields};
+use super::{write_description_field, write_idx_field, write_other_fields};
 use crate::header::record::value::{Map, map::Filter};
 
 pub(crate) fn write_filter<W>(writer: &mut W, filter: &Map<Filter>) -> io::Result<()>
@@ -8,6 +8,7 @@ where
     W: Write,
 {
     write_description_field(writer, filter.description())?;
+    write_idx_field(writer, filter.idx())?;
     write_other_fields(writer, filter.other_fields())?;
     Ok(())
 }
